@@ -612,6 +612,25 @@ func (w *c18World) fresh(cs c18CS, ksTy string, ksTs uint64) bool {
 	return ksTs+cs.trust >= uint64(w.now.Unix())
 }
 
+// a usable client is an exportable one: after every accepted proposal / update the real ExportGenesis of the client
+// module must pass its own GenesisState.Validate()
+func (w *c18World) exportOracle(r *Rec, kind, ty string) {
+	var gerr error
+	pan, pm := safely(func() {
+		gs := xibcclient.ExportGenesis(w.ctx, w.app.XIBCKeeper.ClientKeeper)
+		gerr = gs.Validate()
+	})
+	if pan {
+		gerr = fmt.Errorf("panic: %s", pm)
+	}
+	if gerr != nil {
+		r.Count("export.invalid-after." + kind + "." + ty)
+		w.find(r, "C18:export-invalid-after:"+kind+":"+ty, "after the accepted "+kind+" the exported client genesis fails its own validation: "+gerr.Error(), gerr.Error(), "ExportGenesis().Validate() == nil")
+	} else {
+		r.Count("export.valid-after." + kind)
+	}
+}
+
 func (w *c18World) find(r *Rec, sig, what, obs, req string) {
 	r.Count("finding")
 	r.Find(Finding{Sig: sig, What: what, Ops: append([]string{}, w.hist...), Obs: obs, Req: req})
@@ -818,20 +837,12 @@ func (w *c18World) proposal(r *Rec, f []string) (string, string) {
 		if tc, ok := cs.(*tsstypes.ClientState); ok {
 			w.tssAddr[name] = tc.TssAddress
 		}
-		// observation (not part of C18): does the client genesis exported now pass its own validation?
-		{
-			var gerr error
-			pan, pm := safely(func() { gs := xibcclient.ExportGenesis(w.ctx, ck); gerr = gs.Validate() })
-			if pan {
-				gerr = fmt.Errorf("panic: %s", pm)
-			}
-			if gerr != nil {
-				r.Count("genesis.invalid-after." + kind + "." + d.ty)
-				if os.Getenv("C18_DEBUG") != "" {
-					fmt.Printf("DEBUG genesis invalid after %v: %v\n", w.hist, gerr)
+		w.exportOracle(r, kind, d.ty)
+		if d.ty == "tss" {
+			for key := range c18StoreMap(ck.ClientStore(w.ctx, name)) {
+				if strings.HasPrefix(key, "c:") && !strings.Contains(before, hxs(name)+"/"+key+"=") {
+					w.find(r, "C18:tss-client-has-consensus-state:"+kind, "a TSS client has no consensus states, but the accepted "+kind+" stored one at "+key[2:], after, "no consensus state")
 				}
-			} else {
-				r.Count("genesis.valid-after." + kind)
 			}
 		}
 		storedTy := ""
@@ -1202,6 +1213,7 @@ func (w *c18World) update(r *Rec, f []string) (string, string) {
 				okStored, want = false, "consensus state at "+c18H(header.GetHeight())
 			}
 		}
+		w.exportOracle(r, "update", ty)
 		if !okStored {
 			w.find(r, "C18:accepted-update-not-stored:"+ty, "update accepted but the stored client / consensus state is not the one the header prescribes ("+want+")", fmt.Sprint(stored), want)
 		}
